@@ -117,6 +117,7 @@ type Ops struct {
 	active       map[*go9p.SrvReq]bool     // requests currently inside a callback
 	byKey        map[planKey]*go9p.SrvReq  // the last request seen for (conn, tag)
 	flushGates   map[planKey]chan struct{} // Flush(conn, tag) blocks until the channel is closed
+	closedGates  map[int]chan struct{}     // ConnClosed(conn id) blocks until the channel is closed
 	destroyGates map[int64]chan struct{}   // FidDestroy of the fid object with that token blocks until the channel is closed
 	Dotu         bool
 }
@@ -539,6 +540,22 @@ func (o *Ops) ConnOpened(c *go9p.Conn) {
 func (o *Ops) ConnClosed(c *go9p.Conn) {
 	id := o.ConnID(c)
 	o.Log.Add(Event{Kind: "connclosed", Conn: id})
+	o.mu.Lock()
+	gate := o.closedGates[id]
+	o.mu.Unlock()
+	if gate != nil {
+		<-gate
+	}
+}
+
+// SetConnClosedGate makes the ConnClosed callback for connection id block until gate is closed.
+func (o *Ops) SetConnClosedGate(id int, gate chan struct{}) {
+	o.mu.Lock()
+	if o.closedGates == nil {
+		o.closedGates = map[int]chan struct{}{}
+	}
+	o.closedGates[id] = gate
+	o.mu.Unlock()
 }
 
 func (o *Ops) FidDestroy(f *go9p.SrvFid) {
